@@ -90,7 +90,8 @@ DeliverMsg(ev) ==
       r == ManagerStep([prev |-> rprev, cur |-> rcur, parts |-> rparts, snaps |-> rsnaps, ack |-> rack], m)
       df == IF ~inspec THEN {"index"}
             ELSE {f \in {"r", "e", "ack", "view", "w"} : r.out[f] # lo[f]} \cup (IF ~o.lk THEN {"lk"} ELSE {})
-      inreal == ev.i \in 1..Len(pnet)
+      \* "skip": the real sender had put fewer messages in flight than the schedule assumes; nothing was delivered
+      inreal == ev.i \in 1..Len(pnet) /\ o.r # "skip"
       p == pnet[ev.i]
       bad == IF ~inreal THEN {}
              ELSE JudgeDeliver(p.w, p.t, pack, lo) \cup (IF o.r = "ok" /\ ~o.lk THEN {"uuid-lookup"} ELSE {})
@@ -115,7 +116,7 @@ DeliverAck(ev) ==
       s == SenderAck(ssnaps, sfree, acks[ev.i])
       o == ev.out
       df == IF ~inspec THEN {"index"} ELSE {f \in {"r", "dt"} : [r |-> s.r, dt |-> s.dtick][f] # o[f]}
-      bad == IF o.r \notin {"ok", "UnknownSnap"} THEN {"sender-" \o o.r} ELSE {}
+      bad == IF o.r \notin {"ok", "UnknownSnap", "skip"} THEN {"sender-" \o o.r} ELSE {}
   IN /\ IF inspec
         THEN /\ acks' = IF ev.keep THEN acks ELSE RemoveAt(acks, ev.i)
              /\ ssnaps' = s.snaps /\ sfree' = s.free /\ sdelta' = s.dtick
